@@ -24,7 +24,9 @@ def work(job):
     os.makedirs(outdir, exist_ok=True)
     jobs = []; meta = {}
     for cid, kind, arg in cases:
-        if kind == 'rand': ch, _ = C.gen_chart(arg, data=False, nstates=12)
+        if kind == 'rand':
+            ch, _ = C.gen_chart(arg, data=False, nstates=12)
+            if arg % 3 == 0: C.substring_ids(ch)      # ids that are prefixes of one another
         else: ch = arg
         xml = C.render(ch, 'null')
         has_hist = any(s.kind == 'history' for s in ch.doc)
